@@ -42,6 +42,8 @@ def gen_cases(rng, n):
             dtype, vals = "bool", [rng.random() < 0.6 for _ in range(m)]
         if func in ("argmax", "argmin"):
             vals = [v if v != "nan" else 0 for v in vals]
+        if func in ("max", "min") and eng == "numba" and rng.random() < 0.9:
+            vals = [v if v != "nan" else 1 for v in vals]     # KF05: mostly avoided, still sampled
         if func in ("prod", "nanprod") and dtype in ("int8", "int16", "uint8", "uint16", "int32"):
             vals = [max(-2, min(2, v)) if not isinstance(v, (str, bool)) else v for v in vals]
         if func in ("var", "nanvar", "std", "nanstd", "mean", "nanmean") and dtype == "float32":
@@ -128,6 +130,7 @@ def run(run: C.Run):
     kernel_cases(run, rng, 8000 if thorough else 1600)
     cases = F.corpus("C01") + gen_cases(rng, 12000 if thorough else 2500)
     R.check_reduce_cases(run, cases, "C01", nontrivial, full=True)
+    F.probe_kf05(run)
     if any(not o[1] for o in run.obligations) and not run.violations:
         run.violation({"property": "C01", "kind": "proof obligation / correspondence no longer checks",
                        "failed": P.failed_obligations(run)}, nofail=True, tag="obligation")
